@@ -1,3 +1,4 @@
+#![allow(unused_imports, dead_code)]
 //! sm9verif: property-based testing / fuzzing machinery for John-Yu/SM9_core (see /verif/DESIGN.md).
 pub mod conv;
 pub mod fuzzglue;
